@@ -14,21 +14,37 @@ import (
 	"google.golang.org/protobuf/reflect/protoregistry"
 )
 
+// maxAnyDepth bounds how deeply Any values may be nested when the codec expands
+// them to proto (WithProtoToAny). Each level is decoded, marshalled and stored
+// inside the level above it, so the work grows with the cube of the nesting
+// depth: a 30 kB document nested 800 deep took 5 seconds to decode.
+const maxAnyDepth = 100
+
 func (c *Codec) decode(jsonData []byte, msg protoreflect.Message) error {
+	return c.decodeNested(jsonData, msg, 0)
+}
+
+// decodeNested decodes the value of an Any which is itself anyDepth Any values deep.
+func (c *Codec) decodeNested(jsonData []byte, msg protoreflect.Message, anyDepth int) error {
 	root, err := c.refl.NewRoot(msg)
 	if err != nil {
 		return err
 	}
 
-	return c.decodeRoot(jsonData, root)
+	return c.decodeRootNested(jsonData, root, anyDepth)
 }
 
 func (c *Codec) decodeRoot(jsonData []byte, root j5reflect.Root) error {
+	return c.decodeRootNested(jsonData, root, 0)
+}
+
+func (c *Codec) decodeRootNested(jsonData []byte, root j5reflect.Root, anyDepth int) error {
 	dec := json.NewDecoder(bytes.NewReader(jsonData))
 	dec.UseNumber()
 	d2 := &decoder{
-		jd:    dec,
-		codec: c,
+		jd:       dec,
+		codec:    c,
+		anyDepth: anyDepth,
 	}
 
 	switch schema := root.(type) {
@@ -45,6 +61,9 @@ func (c *Codec) decodeRoot(jsonData []byte, root j5reflect.Root) error {
 type decoder struct {
 	jd    *json.Decoder
 	codec *Codec
+
+	// anyDepth is the number of Any values this document is nested inside.
+	anyDepth int
 }
 
 func (d *decoder) Token() (json.Token, error) {
@@ -479,6 +498,10 @@ func (dec *decoder) decodeAny(prop j5reflect.Property) error {
 	}
 
 	if dec.codec.addProtoToAny && dec.codec.resolver != nil {
+		if dec.anyDepth >= maxAnyDepth {
+			return newFieldError(*constrainType, fmt.Sprintf("Any values are nested more than %d deep", maxAnyDepth))
+		}
+
 		// takes the PROTO name, which should match the encoder.
 		innerDesc, err := dec.codec.resolver.FindMessageByName(protoreflect.FullName(*constrainType))
 		if err != nil {
@@ -489,7 +512,7 @@ func (dec *decoder) decodeAny(prop j5reflect.Property) error {
 		}
 		msg := innerDesc.New()
 
-		if err := dec.codec.decode(valueBytes, msg); err != nil {
+		if err := dec.codec.decodeNested(valueBytes, msg, dec.anyDepth+1); err != nil {
 			return newFieldError(*constrainType, err.Error())
 		}
 
